@@ -11,9 +11,32 @@ def run(c, replay):
     c.assumptions += ["MPI is modelled: every message delivered exactly once after a finite delay, no ordering across senders, collectives compute sum / min; "
                       "MPI progress and buffer exhaustion cannot be exhibited by the model",
                       "ranks run as separate processes on one machine (mpiexec --oversubscribe --bind-to none)"]
-    nprogs = 5 if c.tier == "quick" else 60
+    nprogs = 3 if c.tier == "quick" else 60
     progs, runs = C.campaign(c, ctx, r, nprogs, 0, c.tier, variants=("pred",), ranks_list=(2, 3), jobs=3,
-                             extra_cfgs=[(1, 1, 100), (2, 2, 0)] if c.tier == "quick" else [(1, 1, 100), (2, 2, 0), (3, 3, 50)], watchdog=40)
+                             extra_cfgs=[(1, 1, 100), (2, 2, 0)] if c.tier == "quick" else [(1, 1, 100), (2, 2, 0), (3, 3, 50)], watchdog=15)
+    # ---- the same under a network with finite, uneven delivery delays (harness/netshim.c): busy programs, short GVT periods, a few
+    # messages (events or anti-messages) travelling much longer than a GVT round while the rest is delivered quickly
+    import progen, os
+    nets = ["300,20000,40,%d" % (c.seed * 7 + 1), "100,12000,15,%d" % (c.seed * 7 + 2), "1000,30000,100,%d" % (c.seed * 7 + 3)]
+    njobs = 24 if c.tier == "quick" else 200
+    busy = []
+    for k in range(njobs):
+        p = progen.gen_program(r, lps=r.choice([6, 8, 12, 16]), target=r.choice([100, 150, 300]), zero_ts=(k % 3 == 0))
+        text = progen.render(p)
+        pf = os.path.join(ctx["sd"], "busy%d.txt" % k)
+        open(pf, "w").write(text)
+        busy.append(dict(p=p, text=text, path=pf, variant="pred", tend=0, seqstop=None, seqfull=None, idx=1000 + k))
+
+    def one(k):
+        pr = busy[k]
+        pr["seqstop"] = pr["seqfull"] = S.run_seq(ctx["mexe"], pr["path"], log=False, evalinit=True, stop=False)
+        cfg = [(2, 2, 100, 2), (2, 1, 200, 3), (2, 3, 100, 2), (3, 2, 100, 2), (1, 2, 100, 3)][k % 5]
+        net = nets[k % len(nets)]
+        res = S.run_sim(ctx["exe"], pr["path"], threads=cfg[0], ckpt=cfg[1], gvt=cfg[2], ranks=cfg[3], watchdog=20, timeout=50, net=net)
+        return dict(prog=pr, cfg=cfg, res=res, trace=[], stats=None, delay=None, net=net)
+    from concurrent.futures import ThreadPoolExecutor
+    with ThreadPoolExecutor(4) as ex:
+        runs = runs + list(ex.map(one, range(njobs)))
     ok, hung, nontriv = 0, 0, set()
     for run_ in runs:
         res, pr = run_["res"], run_["prog"]
@@ -33,6 +56,7 @@ def run(c, replay):
         nontriv.add((pr["idx"], run_["cfg"]))
     C.finish(c, ctx)
     c.cov.update(evaluations=len(runs), distinct_nontrivial=len(nontriv), runs_returned=ok, runs_not_returned_inconclusive=hung,
-                 rule="generated interpreter programs x (2, 3 ranks) x (1..3+ threads per rank, checkpoint interval, GVT period down to 0); per-LP final digests of the "
+                 rule="generated interpreter programs x (2, 3 ranks) x (1..3+ threads per rank, checkpoint interval, GVT period down to 0), plus busy programs under a simulated network "
+                      "with uneven finite delivery delays (per sender-thread and destination FIFO, as MPI guarantees); per-LP final digests of the "
                       "returning runs against the extracted reference executor; non-trivial = distinct (program, layout) that returned",
                  traces_validated_against_impl=ok, samples=[C.describe(runs[0])])
